@@ -2,10 +2,11 @@
   C06 — witnesses proved by evaluation.
   * the pre-fix `InstanceValue._attrs` (before /repo commit bd90a2a) violated the instance lookup rule:
     two classes, D(B) overriding m; the legacy table answers B's m on an instance of D.
-  * open finding `cls-as-instance`: supp binds the first parameter of EVERY function in a class body to an
-    instance (FuncScope.get_argument), so `cls` inside a classmethod is looked up in the instance table;
-    when an attribute is both a class-body name and assigned through self the answer is the self-assignment,
-    not the class-body definition Python's `cls.x` selects.
+  * before /repo commit 51a17f1 supp bound the first parameter of EVERY function in a class body to an
+    instance (FuncScope.get_argument), so `cls` inside a classmethod was looked up in the instance table
+    (`clsParamLegacy`); when an attribute is both a class-body name and assigned through self the answer was
+    the self-assignment, not the class-body definition Python's `cls.x` selects.  Now `cls` is the class itself
+    (`classAttrs`).
 -/
 import SuppModel.Attrs.Spec
 
@@ -41,8 +42,10 @@ theorem C06_legacy_false :
 /-- `class C: x = 0 (site 1); def m(self): self.x = 1 (site 2)` -/
 def hCls : Hier := [(0, ⟨[], [("x", 1), ("m", 2)], [("x", 3)]⟩)]
 
-/-- open finding: for `cls` supp consults the instance table (site 3), Python's `cls.x` is the class-body x (site 1) -/
-theorem C06_cls_as_instance :
-    Dict.get (instAttrs hCls 0) "x" = some (.multi [3]) ∧ classLookup hCls 0 "x" = some (.site 1) := by decide
+/-- the old code consulted the instance table for `cls` (site 3); Python's `cls.x` is the class-body x (site 1),
+    which the class table the current code consults gives -/
+theorem C06_cls_as_instance_legacy :
+    Dict.get (clsParamLegacy hCls 0) "x" = some (.multi [3]) ∧ classLookup hCls 0 "x" = some (.site 1) ∧
+      Dict.get (classAttrs hCls 0) "x" = some (.site 1) := by decide
 
 end SuppModel.Witness.C06
